@@ -49,6 +49,14 @@ class Infra(Exception):
     pass
 
 
+class Hang(Exception):
+    """the generator (which runs the implementation in-process) did not finish: some generated input makes the
+    implementation loop or block"""
+    def __init__(self, family, done):
+        Exception.__init__(self, family)
+        self.family, self.done = family, done
+
+
 def sh(cmd, cwd=None, timeout=3600, env=None):
     """Run a command under a time limit.  (coreutils `timeout` is deliberately not used: wrapped in
     it, 16 parallel coqc processes spend minutes of system time in this sandbox.)"""
@@ -252,11 +260,23 @@ def new_panic_sites():
 CTTRACE = os.path.join(HARNESS, "target", "release", "cttrace")
 
 
+GEN_TIMEOUT = {"quick": 900}
+
+
 def gen_cases(family, tier, seed, outfile):
+    limit = GEN_TIMEOUT.get(tier, 3000)
     if family == "c07":
-        rc, out = sh([CTTRACE, tier, str(seed), outfile], timeout=3000)
+        rc, out = sh([CTTRACE, tier, str(seed), outfile], timeout=limit)
     else:
-        rc, out = sh([GEN, family, tier, str(seed), outfile], timeout=3000)
+        rc, out = sh([GEN, family, tier, str(seed), outfile], timeout=limit)
+    if rc == 124:
+        done = 0
+        try:
+            with open(outfile, encoding="utf-8", errors="replace") as fh:
+                done = sum(1 for _ in fh)
+        except OSError:
+            pass
+        raise Hang(family, done)
     if rc != 0:
         raise Infra("harness generator failed (%s):\n%s" % (family, out[-3000:]))
     with open(outfile, encoding="utf-8") as fh:
@@ -630,6 +650,27 @@ def main():
         print("OK property=%s tier=%s theorems=%d/%d cases=%d known_finding_cases=%d wall=%.1fs" % (
             pid, tier, proofs["discharged"], proofs["obligations"], len(cases), len(kn), time.time() - t0))
         return 0
+    except Hang as h:
+        msg = ("the implementation did not return on an input of generator family '%s' within the time limit "
+               "(%d cases had completed): it loops or blocks" % (h.family, h.done))
+        if pid == "C08":
+            # totality is exactly this property: a call that never returns is a violation, even though the
+            # input cannot be named (the generator runs the implementation in-process)
+            rp = os.path.join(work, "replay_%d.json" % seed)
+            with open(rp, "w", encoding="utf-8") as fh:
+                json.dump({"property": pid, "no_failing_input_found": True, "hang": {"family": h.family, "completed_cases": h.done},
+                           "no_longer_checks": [{"kind": "correspondence", "what": msg, "log": ""}]}, fh, indent=1)
+            write_evidence(pid, {"property_id": pid, "tier": tier if tier in ("quick", "thorough") else "thorough", "seed": seed,
+                                 "level": spec["level"],
+                                 "coverage": {"obligations": 1, "discharged": 0, "checker_cmd": "n/a (generator did not terminate)",
+                                              "trusted_base": spec["trusted_base"], "evaluations": h.done, "distinct_nontrivial": 0,
+                                              "rule": spec["rule"], "samples": [{"hang_in_family": h.family}], "exhaustive": False},
+                                 "assumptions": spec["assumptions"], "wall_s": round(time.time() - t0, 2), "violations": 1})
+            print("BROKEN correspondence: " + msg)
+            print("VIOLATION property=%s replay=%s no-failing-input-found" % (pid, rp))
+            return 1
+        print("INFRA: " + msg + "; run ./check C08")
+        return 2
     except Infra as e:
         print("INFRA: " + str(e))
         return 2
